@@ -548,7 +548,7 @@ theorem runFrom_inv (o : WalOpts) (c : Compression) (cOf : Nat → Compression) 
                 (evs ++ (w.step o c (.appendSync r')).2.1).length by simp, List.take_left']
               · exact hrep
               · rfl
-            · simp only [OpTrace.rec?, he, Option.isSome_some, if_true]
+            · simp only [OpTrace.rec?, Option.isSome_some, if_true]
               rw [h2]; simp [OpTrace.rec?, he]; omega
       · have := g4 p (by
           have e1 : (evs ++ (w.step o c op).2.1).length = evs.length + (w.step o c op).2.1.length := by simp
@@ -559,5 +559,241 @@ theorem runFrom_inv (o : WalOpts) (c : Compression) (cOf : Nat → Compression) 
             cases (OpTrace.rec? ⟨op, (w.step o c op).2.1, (w.step o c op).2.2⟩) <;> simp
           rw [e1, e2]; exact hp)
         exact this
+
+/-! ## the theorems -/
+
+theorem run_eq (o : WalOpts) (c : Compression) (prog : List WalOp) :
+    Wal.run o c prog = ((Wal.runFrom o c (Wal.init o).1 prog).1, (Wal.init o).2,
+      (Wal.runFrom o c (Wal.init o).1 prog).2) := rfl
+
+/-- the state after a whole program -/
+theorem run_inv (o : WalOpts) (c : Compression) (cOf : Nat → Compression) (hra : ReaderAgrees cOf o c)
+    (hl : LawfulC c) (prog : List WalOp) (hpf : ProgFits c prog) :
+    ∃ closed cur,
+      WalInv o c (Wal.run o c prog).1 closed cur (walEvents o c prog) ∧
+      (closed ++ [cur]).flatten = walRecords o c prog ∧
+      FitsAll c (closed ++ [cur]) ∧
+      ∀ p ∈ syncPoints (Wal.run o c prog).2.2 (Wal.run o c prog).2.1.length 0,
+        p.1 ≤ (walEvents o c prog).length ∧
+        ∃ rs, replay cOf (dirAfter ((walEvents o c prog).take p.1)) = (rs, none) ∧ p.2 ≤ rs.length := by
+  have h0 := inv_init o c
+  have hf0 : FitsAll c ([] ++ [[]]) := by intro rs hrs r hr; simp at hrs; subst hrs; simp at hr
+  obtain ⟨cl, cu, g1, g2, g3, g4⟩ := runFrom_inv o c cOf hra hl prog hpf _ [] [] _ h0 hf0
+  refine ⟨cl, cu, g1, ?_, g3, ?_⟩
+  · rw [g2]; simp [walRecords, run_eq]
+  · exact g4
+
+/-- what the final `Close` leaves -/
+theorem close_inv (o : WalOpts) (c : Compression) (w : Wal) (closed : List (List GoBytes))
+    (cur : List GoBytes) (evs : List FsEvent) (hinv : WalInv o c w closed cur evs) :
+    ∃ w', WalInv o c w' closed cur (evs ++ w.close.1) ∧ w'.fw.w.buf = [] := by
+  unfold Wal.close
+  by_cases hd : w.dead = true
+  · rw [if_pos hd]
+    exact ⟨w, by rw [List.append_nil]; exact hinv, hinv.dead hd⟩
+  · rw [if_neg hd]
+    have h1 := inv_flush o c w closed cur evs hinv w.dead
+    have h2 := inv_event o c _ closed cur _ h1 (.close w.num) (Or.inr ⟨_, rfl⟩)
+    rw [List.append_assoc] at h2
+    exact ⟨_, h2, fw_flush_buf w.fw⟩
+
+/-- C07, first half: after `Close`, replay delivers exactly the appended records, in order -/
+theorem replay_eq_appends (o : WalOpts) (c : Compression) (cOf : Nat → Compression)
+    (hra : ReaderAgrees cOf o c) (hl : LawfulC c) (prog : List WalOp) (hpf : ProgFits c prog) :
+    replay cOf (dirOf o c prog) = (walRecords o c prog, none) := by
+  obtain ⟨cl, cu, g1, g2, g3, _⟩ := run_inv o c cOf hra hl prog hpf
+  obtain ⟨w', h1, h2⟩ := close_inv o c _ cl cu _ g1
+  have := replay_flushed o c cOf hra hl w' cl cu _ h1 h2 g3
+  rw [g2] at this
+  exact this
+
+/-- every event prefix of a run whose final state satisfies the invariant replays to a prefix of the records -/
+theorem crash_core (o : WalOpts) (c : Compression) (cOf : Nat → Compression) (hra : ReaderAgrees cOf o c)
+    (hl : LawfulC c) (w : Wal) (closed : List (List GoBytes)) (cur : List GoBytes) (evs : List FsEvent)
+    (hinv : WalInv o c w closed cur evs) (hf : FitsAll c (closed ++ [cur])) (n : Nat) :
+    replay cOf (dirAfter (evs.take n)) = (imgRecords c (closed ++ [cur]) (dirAfterN (evs.take n)), none) ∧
+    imgRecords c (closed ++ [cur]) (dirAfterN (evs.take n)) <+: (closed ++ [cur]).flatten := by
+  have hm : (closed ++ [cur]).length = closed.length + 1 := by simp
+  have hadm := hinv.adm
+  rw [← hm] at hadm
+  have himg := img_take _ _ evs n hadm
+  have hlim := hinv.lim
+  have hnum := hinv.num
+  exact ⟨replay_img cOf c o.ct hra.1 hl hra.2 _ hf (by rw [hm]; omega) _ himg,
+    imgRecords_prefix c o.ct _ _ himg⟩
+
+theorem walEventsClosed_eq (o : WalOpts) (c : Compression) (prog : List WalOp) :
+    walEventsClosed o c prog = walEvents o c prog ++ (Wal.run o c prog).1.close.1 := rfl
+
+/-- C07, second half: kill the appender after ANY number of events (including during the final `Close`):
+replay succeeds, delivers a prefix of the appended records, and that prefix holds every record appended up to
+the last `AppendSync` that had returned. -/
+theorem replay_after_crash (o : WalOpts) (c : Compression) (cOf : Nat → Compression)
+    (hra : ReaderAgrees cOf o c) (hl : LawfulC c) (prog : List WalOp) (hpf : ProgFits c prog) (n : Nat) :
+    ∃ rs, replay cOf (dirAfter ((walEventsClosed o c prog).take n)) = (rs, none) ∧
+      rs <+: walRecords o c prog ∧
+      (walRecords o c prog).take (durableWithin o c prog n) <+: rs := by
+  obtain ⟨cl, cu, g1, g2, g3, g4⟩ := run_inv o c cOf hra hl prog hpf
+  obtain ⟨w', h1, _⟩ := close_inv o c _ cl cu _ g1
+  rw [← walEventsClosed_eq] at h1
+  obtain ⟨k1, k2⟩ := crash_core o c cOf hra hl w' cl cu _ h1 g3 n
+  rw [g2] at k2
+  refine ⟨_, k1, k2, ?_⟩
+  have hdur : durableWithin o c prog n ≤
+      (imgRecords c (cl ++ [cu]) (dirAfterN ((walEventsClosed o c prog).take n))).length := by
+    show durableAux (Wal.run o c prog).2.2 (Wal.run o c prog).2.1.length 0 0 n ≤ _
+    apply durableAux_le _ _ _ _ _ _ (Nat.zero_le _)
+    intro p hp hpn
+    obtain ⟨hle, rs', hr', hlen⟩ := g4 p hp
+    have htake : (walEventsClosed o c prog).take p.1 = (walEvents o c prog).take p.1 := by
+      rw [walEventsClosed_eq, List.take_append_of_le_length hle]
+    obtain ⟨q1, _⟩ := crash_core o c cOf hra hl w' cl cu _ h1 g3 p.1
+    rw [htake, hr'] at q1
+    have hrs' : rs' = imgRecords c (cl ++ [cu]) (dirAfterN ((walEvents o c prog).take p.1)) :=
+      (Prod.mk.inj q1).1
+    have hadm := h1.adm
+    rw [show cl.length + 1 = (cl ++ [cu]).length by simp] at hadm
+    have hmono := imgRecords_mono_take c o.ct (cl ++ [cu]) _ hadm p.1 n hpn
+    rw [htake, ← hrs'] at hmono
+    omega
+  apply List.prefix_of_prefix_length_le (List.take_prefix _ _) k2
+  rw [List.length_take]
+  omega
+
+/-- the same for kills before `Close` is called -/
+theorem replay_after_crash_open (o : WalOpts) (c : Compression) (cOf : Nat → Compression)
+    (hra : ReaderAgrees cOf o c) (hl : LawfulC c) (prog : List WalOp) (hpf : ProgFits c prog) (n : Nat)
+    (hn : n ≤ (walEvents o c prog).length) :
+    ∃ rs, replay cOf (dirAfter ((walEvents o c prog).take n)) = (rs, none) ∧
+      rs <+: walRecords o c prog ∧
+      (walRecords o c prog).take (durableWithin o c prog n) <+: rs := by
+  have := replay_after_crash o c cOf hra hl prog hpf n
+  rw [walEventsClosed_eq, List.take_append_of_le_length hn] at this
+  exact this
+
+/-! ## a synchronous append has written and fsynced its record when it returns -/
+
+theorem bytesWritten_append (f : Nat) (xs ys : List FsEvent) :
+    bytesWritten f (xs ++ ys) = bytesWritten f xs ++ bytesWritten f ys := by
+  induction xs with
+  | nil => simp [bytesWritten]
+  | cons e es ih =>
+    cases e with
+    | write g bs =>
+      simp only [List.cons_append, bytesWritten]
+      split <;> simp [ih]
+    | create g => simp only [List.cons_append, bytesWritten, ih]
+    | fsync g => simp only [List.cons_append, bytesWritten, ih]
+    | close g => simp only [List.cons_append, bytesWritten, ih]
+
+theorem bytesWritten_writes (f : Nat) (chs : List Bytes) :
+    bytesWritten f (chs.map (.write f)) = chs.flatten := by
+  induction chs with
+  | nil => rfl
+  | cons ch chs ih => simp [bytesWritten, ih]
+
+theorem writePart_sync (c : Compression) (w1 : Wal) (r : GoBytes) (hna : w1.fw.w.aligned = false) :
+    ∃ evs0, (writePart c true w1 r).2 = evs0 ++ [.fsync (writePart c true w1 r).1.num] ∧
+      bytesWritten (writePart c true w1 r).1.num evs0 = w1.fw.w.buf ++ encRecord c r ∧
+      (writePart c true w1 r).1.fw.w.buf = [] := by
+  simp only [writePart, if_true]
+  refine ⟨_, rfl, ?_, fw_flush_buf _⟩
+  rw [bytesWritten_writes, List.flatten_append,
+    fw_flush_out _ (by rw [fw_write_aligned]; exact hna)]
+  exact fw_write_transp c w1.fw r hna
+
+/-- `AppendSync r` that returns without error: its events end with an `fsync` of the file the record went to,
+the `write` events to that file before it carry (after whatever was still buffered) all bytes of the encoded
+record, and nothing is left in the buffer. -/
+theorem sync_is_durable (o : WalOpts) (c : Compression) (w : Wal) (r : GoBytes)
+    (hna : w.fw.w.aligned = false) (hok : (w.append o c true r).2.2 = none) :
+    ∃ evs0 pre, (w.append o c true r).2.1 = evs0 ++ [.fsync (w.append o c true r).1.num] ∧
+      bytesWritten (w.append o c true r).1.num evs0 = pre ++ encRecord c r ∧
+      (w.append o c true r).1.fw.w.buf = [] := by
+  rw [append_eq] at hok ⊢
+  by_cases hd : w.dead = true
+  · rw [if_pos hd] at hok; simp at hok
+  · rw [if_neg hd] at hok ⊢
+    by_cases hs : w.fw.cur + (r.getD []).length > o.maxSize
+    · rw [if_pos hs] at hok ⊢
+      cases he : (w.rotate o).2.2 with
+      | some e => rw [he] at hok; simp at hok
+      | none =>
+        have hal : (w.rotate o).1.fw.w.aligned = false := by
+          rw [rotate_eq] at he ⊢
+          rw [if_neg hd] at he ⊢
+          by_cases hg : w.next ≥ maxWalFiles
+          · rw [if_pos hg] at he; simp at he
+          · rw [if_neg hg]; exact fw_open_aligned _ _
+        obtain ⟨evs0, h1, h2, h3⟩ := writePart_sync c (w.rotate o).1 r hal
+        refine ⟨(w.rotate o).2.1 ++ evs0,
+          bytesWritten (writePart c true (w.rotate o).1 r).1.num (w.rotate o).2.1 ++ (w.rotate o).1.fw.w.buf,
+          ?_, ?_, h3⟩
+        · show (w.rotate o).2.1 ++ (writePart c true (w.rotate o).1 r).2 = _
+          rw [h1, List.append_assoc]
+        · show bytesWritten (writePart c true (w.rotate o).1 r).1.num _ = _
+          rw [bytesWritten_append, h2, List.append_assoc]
+    · rw [if_neg hs]
+      obtain ⟨evs0, h1, h2, h3⟩ := writePart_sync c w r hna
+      exact ⟨evs0, w.fw.w.buf, h1, h2, h3⟩
+
+/-! ## the one-million-files guard -/
+
+theorem writePart_next (c : Compression) (sync : Bool) (w : Wal) (r : GoBytes) :
+    (writePart c sync w r).1.next = w.next ∧ (writePart c sync w r).1.dead = w.dead := by
+  cases sync <;> simp [writePart]
+
+/-- below the guard an operation succeeds and opens at most one more file -/
+theorem step_ok (o : WalOpts) (c : Compression) (w : Wal) (op : WalOp) (hd : w.dead = false)
+    (hn : w.next < maxWalFiles) :
+    (w.step o c op).2.2 = none ∧ (w.step o c op).1.dead = false ∧ (w.step o c op).1.next ≤ w.next + 1 := by
+  have hd' : ¬ w.dead = true := by simp [hd]
+  have hg : ¬ w.next ≥ maxWalFiles := by omega
+  have hrot : (w.rotate o).2.2 = none ∧ (w.rotate o).1.dead = false ∧ (w.rotate o).1.next = w.next + 1 := by
+    rw [rotate_eq, if_neg hd', if_neg hg]; exact ⟨rfl, rfl, rfl⟩
+  have happ : ∀ sync r, (w.append o c sync r).2.2 = none ∧ (w.append o c sync r).1.dead = false ∧
+      (w.append o c sync r).1.next ≤ w.next + 1 := by
+    intro sync r
+    rw [append_eq, if_neg hd']
+    by_cases hs : w.fw.cur + (r.getD []).length > o.maxSize
+    · rw [if_pos hs, hrot.1]
+      have := writePart_next c sync (w.rotate o).1 r
+      exact ⟨rfl, by show (writePart c sync (w.rotate o).1 r).1.dead = false; rw [this.2, hrot.2.1],
+        by show (writePart c sync (w.rotate o).1 r).1.next ≤ _; rw [this.1, hrot.2.2]; omega⟩
+    · rw [if_neg hs]
+      have := writePart_next c sync w r
+      exact ⟨rfl, by show (writePart c sync w r).1.dead = false; rw [this.2, hd],
+        by show (writePart c sync w r).1.next ≤ _; rw [this.1]; omega⟩
+  cases op with
+  | append r => exact happ false r
+  | appendSync r => exact happ true r
+  | rotate => exact ⟨hrot.1, hrot.2.1, by show (w.rotate o).1.next ≤ _; rw [hrot.2.2]; omega⟩
+
+theorem runFrom_ok (o : WalOpts) (c : Compression) (prog : List WalOp) (w : Wal) (hd : w.dead = false)
+    (hn : w.next + prog.length ≤ maxWalFiles) :
+    (∀ t ∈ (Wal.runFrom o c w prog).2, t.err = none) ∧
+    traceRecords (Wal.runFrom o c w prog).2 = progRecords prog := by
+  induction prog generalizing w with
+  | nil => simp [Wal.runFrom, traceRecords, progRecords]
+  | cons op ops ih =>
+    simp only [List.length_cons] at hn
+    obtain ⟨h1, h2, h3⟩ := step_ok o c w op hd (by omega)
+    obtain ⟨i1, i2⟩ := ih (w.step o c op).1 h2 (by omega)
+    rw [runFrom_cons]
+    constructor
+    · intro t ht
+      simp only [List.mem_cons] at ht
+      rcases ht with rfl | ht
+      · exact h1
+      · exact i1 t ht
+    · rw [traceRecords_cons, i2]
+      cases op <;> simp [OpTrace.rec?, h1, progRecords]
+
+/-- a program of fewer than 999 999 operations never reaches the guard, and all its records are appended -/
+theorem noGuard_of_short (o : WalOpts) (c : Compression) (prog : List WalOp)
+    (h : prog.length < maxWalFiles - 1) :
+    NoGuard o c prog ∧ walRecords o c prog = progRecords prog := by
+  have := runFrom_ok o c prog (Wal.init o).1 rfl (by show 1 + prog.length ≤ _; omega)
+  exact this
 
 end SST.Proofs
